@@ -682,6 +682,10 @@ func (eval Evaluator) Mul(op0 *rlwe.Ciphertext, op1 rlwe.Operand, opOut *rlwe.Ci
 		if cmplxBig.IsInt() {
 			scale = rlwe.NewScale(1) // Scalar is a GaussianInteger, thus no scaling required
 		} else {
+			if level < eval.GetParameters().LevelsConsumedPerRescaling()-1 {
+				return fmt.Errorf("cannot Mul: level %d is too low to scale the operand by %d primes", level, eval.GetParameters().LevelsConsumedPerRescaling())
+			}
+
 			scale = rlwe.NewScale(ringQ.SubRings[level].Modulus) // Current modulus scaling factor
 
 			// If DefaultScalingFactor > 2^60, then multiple moduli are used per single rescale
@@ -724,6 +728,10 @@ func (eval Evaluator) Mul(op0 *rlwe.Ciphertext, op1 rlwe.Operand, opOut *rlwe.Ci
 		}
 
 		*pt.MetaData = *op0.MetaData
+		if level < eval.GetParameters().LevelsConsumedPerRescaling()-1 {
+			return fmt.Errorf("cannot Mul: level %d is too low to scale the operand by %d primes", level, eval.GetParameters().LevelsConsumedPerRescaling())
+		}
+
 		pt.Scale = rlwe.NewScale(ringQ.SubRings[level].Modulus)
 
 		// If DefaultScalingFactor > 2^60, then multiple moduli are used per single rescale
@@ -986,6 +994,10 @@ func (eval Evaluator) MulThenAdd(op0 *rlwe.Ciphertext, op1 rlwe.Operand, opOut *
 					return fmt.Errorf("cannot MulThenAdd: opOut must be different from op0 when op1 is not a Gaussian integer")
 				}
 
+				if level < eval.GetParameters().LevelsConsumedPerRescaling()-1 {
+					return fmt.Errorf("cannot MulThenAdd: level %d is too low to scale the operand by %d primes", level, eval.GetParameters().LevelsConsumedPerRescaling())
+				}
+
 				scaleRLWE = rlwe.NewScale(ringQ.SubRings[level].Modulus)
 
 				for i := 1; i < eval.GetParameters().LevelsConsumedPerRescaling(); i++ {
@@ -1030,6 +1042,10 @@ func (eval Evaluator) MulThenAdd(op0 *rlwe.Ciphertext, op1 rlwe.Operand, opOut *
 			// opOut is scaled before op0 is read: they cannot be the same ciphertext
 			if op0.El() == opOut.El() {
 				return fmt.Errorf("cannot MulThenAdd: opOut must be different from op0")
+			}
+
+			if level < eval.GetParameters().LevelsConsumedPerRescaling()-1 {
+				return fmt.Errorf("cannot MulThenAdd: level %d is too low to scale the operand by %d primes", level, eval.GetParameters().LevelsConsumedPerRescaling())
 			}
 
 			scaleRLWE = rlwe.NewScale(ringQ.SubRings[level].Modulus)
